@@ -644,7 +644,7 @@ def run(ctx):
         'the answer-level message is read as shown if and only if every submitted and expected item earned credit '
         '(under some optimal assignment / some best answer list when there are ties)',
         'a student-facing error means any StudentFacingError; class MissingInput and the message kind are drift-level',
-        'nested lists: the inner grader never has length_error; a blank inner entry in a surplus position of an '
+        'nested lists: a blank inner entry in a surplus position of an '
         'ordered outer list may either raise or be graded (the statement does not say whose missing_error applies)',
         'generated answers are valid configurations (equal list lengths, no blank expected entries when missing_error)',
         'item credits are small rationals; the float grade is compared with the exact rational within 1e-12']
